@@ -380,9 +380,15 @@ def cubicSpline (o : XOps α) (c : CCfg) (uw uh : List α) (udl udr : α) (inver
       -- cubic.py (after the fix): |a| * width^3 < quadratic_threshold * height
       if o.lt (o.mul (o.abs ia) (let bw := o.sub rcw lcw; o.mul (o.mul bw bw) bw)) (o.mul (o.ofFloat c.thr) ih) then
         let a := ib; let b := ic; let cc := o.sub id x'
-        let al := o.div (o.mul o.two cc) (o.sub (o.neg b) (o.sqrt (o.sub (o.mul b b) (o.mul (o.mul (o.ofFloat 4.0) a) cc))))
+        -- cubic.py (after the fix): the radicand is clamped at zero (it vanishes at a flat end of the bin)
+        let rad := o.maxA (o.sub (o.mul b b) (o.mul (o.mul (o.ofFloat 4.0) a) cc)) o.zero
+        let al := o.div (o.mul o.two cc) (o.sub (o.neg b) (o.sqrt rad))
         (o.add al lcw, [])
       else (out0, alts)
+    -- cubic.py (after the fix): the root is clamped into its bin before the derivative is evaluated
+    let inBin := fun (t : α) => o.minA (o.maxA t lcw) rcw
+    let out1 := inBin out1
+    let alts := alts.map inBin
     let sh := o.sub out1 lcw
     let ld := o.neg (o.log (o.add (o.add (o.mul (o.mul three ia) (o.mul sh sh)) (o.mul (o.mul o.two ib) sh)) ic))
     let sc := fun (t : α) => o.add (o.mul (o.clamp o.zero o.one t) (o.ofFloat (c.box.right - c.box.left))) (o.ofFloat c.box.left)
